@@ -24,6 +24,8 @@ class UpdateExtractor(BaseExtractor):
         tgt_flag = False
         columns = []
         subqueries = []
+        # read tables in the order they are written, so that alias resolution doesn't depend on set iteration order
+        tables = []
         for segment in list_child_segments(statement):
             if segment.type == "from_expression":
                 # UPDATE with JOIN, mysql only syntax
@@ -35,6 +37,7 @@ class UpdateExtractor(BaseExtractor):
                     holder.add_write(from_join_tables[0])
                     for join_table in from_join_tables[1:]:
                         holder.add_read(join_table)
+                        tables.append(join_table)
 
             if segment.type == "keyword" and segment.raw_upper == "UPDATE":
                 tgt_flag = True
@@ -68,13 +71,14 @@ class UpdateExtractor(BaseExtractor):
                     segment, holder
                 ):
                     holder.add_read(read_table)
+                    tables.append(read_table)
 
         if holder.write:
             # without a target table identified, there's no column lineage to build
             for tgt_col in columns:
                 tgt_col.parent = list(holder.write)[0]
                 for src_col in tgt_col.to_source_columns(
-                    holder.get_alias_mapping_from_table_group(list(holder.read))
+                    holder.get_alias_mapping_from_table_group(tables)
                 ):
                     holder.add_column_lineage(src_col, tgt_col)
 
